@@ -157,6 +157,72 @@ fn main() {
         },
     );
 
+    // ---------------------------------------------------------------- through the host's own filters
+    // The collection filters are also reached from user-written filters, through `State::call_filter`
+    // - at top level and inside templates that are included, one, two and three levels deep: same
+    // answer as the direct application. (Seeded change C16-14 looked the built-in filters up one
+    // include level above the callback only.)
+    {
+        const VIA: [(&str, &str); 12] = [
+            ("sort", ""), ("unique", ""), ("reverse", ""), ("first", ""), ("last", ""), ("length", ""),
+            ("join", "sep=\"-\""), ("nth", "n=1"), ("sort", "attribute=\"k\""), ("group_by", "attribute=\"k\""), ("keys", ""), ("values", ""),
+        ];
+        fn via(val: tera::Value, kwargs: tera::Kwargs, state: &tera::State) -> tera::TeraResult<tera::Value> {
+            let name = kwargs.must_get::<String>("f")?;
+            state.call_filter(&name, &val, kwargs)
+        }
+        let receivers: Vec<(&str, V)> = vec![
+            ("ints", V::Arr(vec![V::I64(3), V::I64(1), V::I64(2), V::I64(1)])),
+            ("strings", V::Arr(vec![V::s("b"), V::s("a"), V::s("b")])),
+            ("mixed", V::Arr(vec![V::I64(1), V::s("a")])),
+            ("keyed", V::Arr(vec![V::map(&[("k", V::I64(2))]), V::map(&[("k", V::I64(1))]), V::map(&[("k", V::I64(2))])])),
+            ("map", V::map(&[("b", V::I64(1)), ("a", V::I64(2))])),
+            ("empty", V::Arr(vec![])),
+        ];
+        run.family(
+            Family::new(
+                "through-host-filters",
+                (VIA.len() * 4) as u64,
+                &format!("{} collection filter calls issued by a user-registered filter through State::call_filter x include depth 0..=3 x {} receivers: same result (text or refusal) as the direct application", VIA.len(), receivers.len()),
+            ),
+            |item, acc: &mut Acc| {
+                let (name, args) = VIA[item as usize / 4];
+                let depth = item as usize % 4;
+                let direct = format!("{{{{ x | {name}({args}) }}}}");
+                let through = format!("{{{{ x | via(f=\"{name}\"{}{args}) }}}}", if args.is_empty() { "" } else { ", " });
+                let mut tpls: Vec<(String, String)> = vec![("d0".into(), direct.clone()), ("v0".into(), through.clone())];
+                for k in 1..=depth {
+                    tpls.push((format!("d{k}"), format!("{{% include \"d{}\" %}}", k - 1)));
+                    tpls.push((format!("v{k}"), format!("{{% include \"v{}\" %}}", k - 1)));
+                }
+                let mut t = tera::Tera::default();
+                t.register_filter("via", via);
+                if let Err(e) = t.add_raw_templates(tpls.iter().map(|(n, s)| (n.as_str(), s.as_str()))) {
+                    acc.violation("through-host-filters:refused", format!("registration failed: {e}"), || json!({"templates": tpls}));
+                    return;
+                }
+                for (rname, x) in &receivers {
+                    let ctx = vals::context(&[("x", x)]);
+                    let a = engine::render(&t, &format!("d{depth}"), &ctx);
+                    let b = engine::render(&t, &format!("v{depth}"), &ctx);
+                    let same = match (&a, &b) {
+                        (Out::Ok(p), Out::Ok(q)) => p == q,
+                        (Out::Err(..), Out::Err(..)) => true,
+                        _ => false,
+                    };
+                    if !same {
+                        acc.violation(
+                            format!("through-host-filters:{name}:depth-{depth}"),
+                            format!("`{direct}` gives {}, `{through}` (a user filter calling State::call_filter) gives {} at include depth {depth}", a.show(), b.show()),
+                            || json!({"templates": tpls, "render": [format!("d{depth}"), format!("v{depth}")], "x": x.describe(), "receiver": rname}),
+                        );
+                    }
+                    acc.case(depth > 0, if a.is_ok() { "same:text" } else { "same:refusal" });
+                }
+            },
+        );
+    }
+
     if run.is_supervisor() {
         let (ok, err) = (run.outcome("arrays", "sort:ok"), run.outcome("arrays", "sort:err"));
         run.guard("sort-both-outcomes", ok > 0 && err > 0, format!("arrays: sort ok={ok} err={err}"));
